@@ -24,7 +24,7 @@ SPEC = {
  "C16": ("BinaryProof RLEMisc RLConcat RLEReduce", ["apply_binary_correct","rl_map_correct","rl_sum_correct","rl_any_correct","rl_all_correct","rl_max_correct","rl_mean_correct","rl_hist_correct","rl_concat_correct"]),
  "C17": ("RLEMisc RL2Proof RL2Col RL2Ravel RL2Elem RL2Argmax", ["from_ragged_decode","rl2_select_correct","rl2_map_correct","rl2_concat_correct","rl2_sum_correct","rl2_max_argmax_correct","rl2_col_correct","rl2_ravel_correct","rl2_elem_correct"]),
  "C18": ("DataClassProof", ["obj_select_entries","obj_item_entry","obj_concat_entries","obj_eqb_iff","varlen_rows"]),
- "C19": ("IdxWidth", ["index_rows_width_independent","excl_prefix_in32"]),
+ "C19": ("IdxWidth Shape", ["index_rows_width_independent","excl_prefix_in32","wrap32_id","shape_codes_width_independent","geometry_additions_width_independent"]),
 }
 HEADER = "From Coq Require Import ZArith List Bool.\nFrom NPS Require Import ListAux PySlice NumpySem Scatter BuildIdx XorBroadcast View Index Assign Reduce Scan RaOps Heap Hash HashRun BitArr RLE RLEOps RLE2d DataClass RowsSpec AssignSpec MapSpec Denote {mods}.\nImport ListNotations.\nOpen Scope Z_scope.\n"
 def check(mods, name):
